@@ -677,7 +677,7 @@ class Session:
                 self.log.add(self.steps, "E-skip", tag)
         elif op == "K":
             if isinstance(e, CompoundEdit):
-                rec = [a.idx, e.edits(), [], False]
+                rec = [a.idx, iter(e.edits()), [], False]     # edits() may return any iterable
                 a.open_gens += 1
                 self.suspended.append(rec)
                 self.bump("probe.generator_suspended")
